@@ -1,6 +1,8 @@
 package main
 
 import (
+	"fmt"
+
 	"verif/common"
 	"verif/space"
 
@@ -15,6 +17,7 @@ type sliceInst struct {
 	s     heapz.Slice[int]
 	model []int // multiset
 	cap   int
+	start string
 }
 
 // start 0: NewSlice(4), start 1: FromSlice(nil), start 2+i: FromSlice(copy of startSlices[i])
@@ -23,12 +26,15 @@ func newSliceInst(k cmpKind, idx, capN int) *sliceInst {
 	switch {
 	case idx == 0:
 		x.s = heapz.NewSlice[int](4, x.cmp)
+		x.start = fmt.Sprintf("NewSlice(4, %s)", k)
 	case idx == 1:
 		x.s = heapz.FromSlice[int](nil, x.cmp)
+		x.start = fmt.Sprintf("FromSlice(nil, %s)", k)
 	default:
 		src := startSlices[idx-2]
 		x.s = heapz.FromSlice(append(make([]int, 0, len(src)), src...), x.cmp)
 		x.model = append([]int(nil), src...)
+		x.start = fmt.Sprintf("FromSlice(%v, %s)", src, k)
 	}
 	return x
 }
@@ -55,7 +61,10 @@ func (x *sliceInst) Ops() []space.Op {
 	return ops
 }
 
-func (x *sliceInst) Apply(op space.Op) *space.Mismatch {
+func (x *sliceInst) Apply(op space.Op) *space.Mismatch { return tag(x.start, x.apply(op)) }
+func (x *sliceInst) Check() *space.Mismatch            { return tag(x.start, x.check()) }
+
+func (x *sliceInst) apply(op space.Op) *space.Mismatch {
 	switch op.Name {
 	case "Push":
 		x.s.Push(op.Args[0])
@@ -163,7 +172,7 @@ func equalInts(a, b []int) bool {
 func (x *sliceInst) Roots() []any     { return []any{x.k.String(), &x.s} }
 func (x *sliceInst) Abstract() string { return abstractOf(x.k, x.model) }
 
-func (x *sliceInst) Check() *space.Mismatch {
+func (x *sliceInst) check() *space.Mismatch {
 	if g := x.s.Len(); g != len(x.model) {
 		return mm("Slice.Len|wrong", "Len = %d, model holds %v", g, sorted(x.model))
 	}
